@@ -26,11 +26,16 @@ def _mk():
         ('Five', [('', '', 'e', 'A'), ('', '', 'd', 'B'), ('', '', 'c', 'C'), ('', '', 'b', 'D'), ('', '', 'a', 'E')]),
         ('Six', [('', '', 'n1', 'A'), ('', '', 'n10', 'B'), ('', '', 'n2', 'A'), ('', '', 'inner_set', 'S1'), ('', '', 'n3', 'C'), ('', '', 'r#type', 'B')]),
         ('Seven', [('', '', 'g', 'A'), ('', '', 'a', 'B'), ('', '', 'f', 'C'), ('', '', 'b', 'D'), ('', '', 'e', 'E'), ('', '', 'c', 'F'), ('', '', 'd', 'G')]),
+        ('OneLineTwo', [('', '', 'second', 'A'), ('', '', 'first', 'B')], True),
+        ('OneLineOne', [('', '', 'only', 'A')], True),
+        ('OneLineNested', [('', '', 'lead', 'A'), ('', '', 'tail_set', 'S1')], True),
+        ('Alternating', [('', '', 'q1', 'A'), ('', '', 't1', 'B'), ('', '', 'q2', 'A'), ('', '', 't2', 'B'), ('', '', 'inner', 'S1'), ('', '', 'q3', 'A')]),
         ('Eight', [('', '', 'h8', 'A'), ('', '', 's1', 'S1'), ('', '', 'h6', 'B'), ('', '', 'h5', 'A'), ('', '', 's2', 'S2'), ('', '', 'h3', 'C'), ('', '', 'h2', 'B'), ('', '', 'h1', 'D')]),
     ]
     for macro, member in kinds:
-        for nm, fields in base:
-            SHAPES.append({'name': ('M' if macro.startswith('Market') else 'S') + nm, 'macro': macro, 'member': member, 'fields': fields})
+        for entry in base:
+            nm, fields = entry[0], entry[1]
+            SHAPES.append({'name': ('M' if macro.startswith('Market') else 'S') + nm, 'macro': macro, 'member': member, 'fields': fields, 'oneline': len(entry) > 2})
 
 
 _mk()
@@ -41,6 +46,10 @@ def shape_source():
     for s in SHAPES:
         tps = sorted({f[3] for f in s['fields']})
         out.append('#[derive(%s)]' % s['macro'])
+        if s.get('oneline'):
+            # written on one line WITHOUT a trailing comma after the last field
+            out.append('pub struct %s<%s> { %s }' % (s['name'], ', '.join(tps), ', '.join('%s%s: %s' % (vis, name, ty) for attrs, vis, name, ty in s['fields'])))
+            continue
         out.append('pub struct %s<%s> {' % (s['name'], ', '.join(tps)))
         for attrs, vis, name, ty in s['fields']:
             out.append('    %s%s%s: %s,' % (attrs, vis, name, ty))
